@@ -62,6 +62,8 @@ def check_one(ctx, res, seed, st, samples, distinct):
                 raise tsparse.ParseError("no notice")
             tsparse.parse_module(text, tsmini.NOTE)
         except tsparse.ParseError as e:
+            if not documented:
+                continue     # nothing documented here: whether the text parses is C04's question
             data = dict(kind="property-violated", what="the exported text does not parse (documentation read as code?)", error=str(e),
                         type=C.rust_ty(qs[i]), text=text, definition=C.to_rust(d), seed=seed)
             cls = classify(d, by, text)
